@@ -161,7 +161,7 @@ func judge(c fragCase, p prepared, o cli.Outcome) harness.Result {
 	}
 	reply := p.reply
 	if c.ExcCode != 0 {
-		if o.Resp != nil || o.Err == nil {
+		if !cat.IsNilValue(o.Resp) || o.Err == nil {
 			return harness.Fail("exception reply %x: got response %v err %v, want (nil, typed exception)", reply, o.Resp, o.Err)
 		}
 		if f == spec.TCP {
@@ -186,7 +186,7 @@ func judge(c fragCase, p prepared, o cli.Outcome) harness.Result {
 	if o.Err != nil {
 		return harness.Fail("complete correct reply %x delivered as chunks %v (gaps %v %s, eof %d) but Do failed: %v (client consumed %d bytes)", reply, c.Chunks, c.Gaps, c.GapKind, c.EOF, o.Err, o.Consumed)
 	}
-	if o.Resp == nil {
+	if cat.IsNilValue(o.Resp) {
 		return harness.Fail("Do returned (nil, nil)")
 	}
 	if got, want := cat.GoType(o.Resp), cat.TypeName(f, c.Req.FC, false); got != want {
